@@ -280,6 +280,7 @@ def ops_job(W, local_lens, what):
             outs = spmd.WORLD.run(W, rank_main)
         except (Exception, spmd.Deadlock) as e:
             exc = e
+        draws = [v for _, v in stubs.current_log()]
 
         def witness(model):
             cv = [[float(ev(model, x)) for x in r] for r in vals]
@@ -292,6 +293,29 @@ def ops_job(W, local_lens, what):
                 if what == 'mean':
                     return float(ops.striped_array_mean(la))
                 return None
+            if what == 'randind':
+                from harness.cluster import ReplayRandom, PatchedRandom
+                dv = [int(ev(model, v)) for v in draws]
+                out['inputs']['random_draws'] = dv
+                crs = ReplayRandom(dv)
+                with core.concrete_mode(), PatchedRandom(km, hy, crs):
+                    try:
+                        o2 = spmd.WORLD.run(W, lambda r: ops.randind(np.array(cv[r], dtype=float), crs))
+                    except (Exception, spmd.Deadlock) as e:
+                        out.update(exception=repr(e), violated=['raises ' + type(e).__name__],
+                                   signature='ops.randind:exception:' + type(e).__name__)
+                        return out
+                out['out'] = [[int(o[0]), int(o[1])] for o in o2]
+                v = []
+                if any(o != out['out'][0] for o in out['out']):
+                    v.append('ranks disagree on the chosen element')
+                ow, li = out['out'][0]
+                if not (0 <= ow < W and 0 <= li < local_lens[ow]):
+                    v.append('chosen (owner, local index) does not address an existing element')
+                out['violated'] = v
+                if v:
+                    out['signature'] = 'ops.randind:' + v[0]
+                return out
             if what not in ('max', 'mean'):
                 return dict(out, violated=[])
             with core.concrete_mode():
@@ -338,7 +362,7 @@ def ops_job(W, local_lens, what):
                         else:
                             ok = False
                 obs.append(('rank %d: element i of the assembled array is element i//W of rank i%%W' % r, conj(conds) if ok else False))
-        return PathOut(obs, {}, None, desc='mpi.ops.%s W=%d local=%s' % (what, W, local_lens))
+        return PathOut(obs, {}, witness if what in ('max', 'mean', 'randind') else None, desc='mpi.ops.%s W=%d local=%s' % (what, W, local_lens))
     return path
 
 
@@ -407,6 +431,9 @@ def jobs(tier):
     for W, ll in ((1, (3,)), (2, (2, 1)), (2, (1, 3)), (3, (1, 2, 1)), (3, (2, 2, 2))):
         for what in ('max', 'mean', 'randind'):
             add('ops_job', 'ops.%s[W=%d,%s]' % (what, W, list(ll)), W=W, local_lens=ll, what=what)
+    # layouts that are not 'packed' (a later rank holds more than an earlier one): only the searched index table is right there
+    for W, ll in ((3, (3, 2, 3)), (3, (2, 1, 2)), (2, (1, 2))) + (() if q else ((3, (1, 1, 3)), (4, (2, 1, 2, 1)))):
+        add('ops_job', 'ops.randind[W=%d,%s]' % (W, list(ll)), W=W, local_lens=ll, what='randind')
     for W, ll in ((2, (2, 2)), (2, (2, 1)), (3, (1, 1, 1)), (3, (2, 2, 1))):
         add('ops_job', 'ops.assemble[W=%d,%s]' % (W, list(ll)), W=W, local_lens=ll, what='assemble')
     return J
